@@ -459,6 +459,11 @@ caf_read_header (SF_PRIVATE *psf)
 				break ;
 
 			case data_MARKER :
+				if (chunk_size != -1 && chunk_size < 4)
+				{	/* Not even room for the edit count : damaged, or the chunk size could not be read. */
+					psf_log_printf (psf, "%M : %D (should be >= 4)\n", marker, chunk_size) ;
+					return SFE_MALFORMED_FILE ;
+					} ;
 				psf_binheader_readf (psf, "E4", &k) ;
 				if (chunk_size == -1)
 				{	psf_log_printf (psf, "%M : -1\n") ;
